@@ -367,7 +367,10 @@ func (index *PatternIndex) searchPairs(ctx *Context, pairs []piPair) (StringSet,
 	Log(DEBUG, ctx, "PatternIndex.searchPairs", "default_input", pairs)
 
 	if len(pairs) == 0 {
-		return make(StringSet), nil
+		// Every pattern that ends at this node has been matched
+		// completely (including the empty pattern at the root
+		// and an empty map pattern at a Map node).
+		return make(StringSet).AddAll(index.Ids), nil
 	}
 
 	pair := pairs[0]
